@@ -184,7 +184,8 @@ def run_shard(ctx):
         tag = f"{idx}_{os.getpid()}"
         if idx % 3 == 0:
             names = [n for n in gs.PLAIN_NAMES + gs.RENAMING_NAMES if n not in ("é", "1st")]
-            doc = gen_docs.DocGen(rng, f"c06_{ctx.shard}_{tag}", names=names, untitled=0.3).doc()
+            doc = gen_docs.DocGen(rng, f"c06_{ctx.shard}_{tag}", names=names, untitled=0.3,
+                                  hostile_descriptions=idx % 2 == 0).doc()
             try:
                 resolved = gen_docs.resolve(doc)
                 if not refmodel.metaschema_valid(resolved):
